@@ -192,7 +192,18 @@ pub fn run() {
                     w.regions.push(IpcSharedMemory::from_bytes(&payload(500 + g as u64, 64 + g)));
                 }
             });
-            let pre_res = if pre.is_empty() { None } else { Some(out.send(Script(pre)).is_ok()) };
+            // predead=1: the earlier send is serialised successfully but then refused by the OS (its receiver is gone): what it
+            // had collected must be released there and then, not travel with a later message
+            let predead = a.get("predead").map(|s| s == "1").unwrap_or(false);
+            let pre_res = if pre.is_empty() {
+                None
+            } else if predead {
+                let (dtx, drx) = ipc::channel::<Script>().unwrap();
+                drop(drx);
+                Some(dtx.send(Script(pre)).is_ok())
+            } else {
+                Some(out.send(Script(pre)).is_ok())
+            };
             mark(&format!("script {}", id));
             let res = out.send(Script(body)).is_ok();
             mark(&format!("endscript {}", id));
